@@ -16,6 +16,7 @@ Definition kind_class (k : fkind) : Z :=
   | FIndex | FNoArray | FRegIndex => 2
   | FUnitRange => 3
   | FType => 4
+  | FBook => 5
   end.
 
 (* what the implementation did with one subroutine *)
@@ -43,7 +44,8 @@ Record expect := mkX {
   x_arrs : list (Z * list cell);
   x_sregs : list (Z * Z * Z);
   x_sarrs : list (Z * list cell);
-  x_um : list bool
+  x_um : list (option Z);                 (* physical id per virtual id *)
+  x_used : list Z                         (* the in-use set of physical ids, sorted *)
 }.
 
 Record ecase := mkCase {
@@ -92,7 +94,8 @@ Definition result_matches (r : result) (x : expect) : bool :=
       out_matches o (x_out x) && (pc =? x_pc x) &&
       regs_match (regs st) (x_regs x) && arrs_match (arrs st) (x_arrs x) &&
       regs_match (sregs st) (x_sregs x) && arrs_match (shm_arrays st) (x_sarrs x) &&
-      list_eqb Bool.eqb (um st) (x_um x)
+      list_eqb cell_eqb (um st) (x_um x) &&
+      (Zlen (used st) =? Zlen (x_used x)) && forallb (fun p => set_mem p (used st)) (x_used x)
   end.
 
 Fixpoint all_match (rs : list result) (xs : list expect) : bool :=
